@@ -10,6 +10,7 @@ import (
 	"path/filepath"
 	"strings"
 	"sync"
+	"time"
 
 	"github.com/brutella/hc/accessory"
 	"github.com/brutella/hc/db"
@@ -86,6 +87,18 @@ func (l *L2) EntityFiles() map[string]string {
 	return out
 }
 
+// HandlerTimeout is how long a handler may run before it is reported as wedged. No handler of the
+// accessory does anything that takes longer than milliseconds (the mDNS re-announcement of the
+// transport, which sleeps 1 s, is not part of the handler-level fixture).
+var HandlerTimeout = 20 * time.Second
+
+// WedgedError reports that a handler did not return.
+type WedgedError struct{ Request string }
+
+func (w *WedgedError) Error() string {
+	return fmt.Sprintf("handler for %s did not return within %s", w.Request, HandlerTimeout)
+}
+
 // PanicError reports that a handler panicked.
 type PanicError struct{ Value interface{} }
 
@@ -121,14 +134,22 @@ func (c *L2Conn) Do(method, path, contentType string, body []byte) (resp *refctl
 	}
 	req.RemoteAddr = c.Raw.RemoteAddr().String()
 	rec := httptest.NewRecorder()
-	func() {
+	done := make(chan error, 1)
+	go func() {
 		defer func() {
 			if r := recover(); r != nil {
-				err = &PanicError{r}
+				done <- &PanicError{r}
+				return
 			}
+			done <- nil
 		}()
 		c.L.Srv.Mux.ServeHTTP(rec, req)
 	}()
+	select {
+	case err = <-done:
+	case <-time.After(HandlerTimeout):
+		return nil, &WedgedError{method + " " + path}
+	}
 	if err != nil {
 		return nil, err
 	}
